@@ -25,6 +25,8 @@ func MarshalString(g orb.Geometry) string {
 
 func wkt(buf *bytes.Buffer, geom orb.Geometry) {
 	switch g := geom.(type) {
+	case nil:
+		// nothing to write, same as the (E)WKB encoders
 	case orb.Point:
 		fmt.Fprintf(buf, "POINT(%g %g)", g[0], g[1])
 	case orb.MultiPoint:
